@@ -9,6 +9,8 @@ these unchanged (up to the renaming) on the models; the exception shapes where t
 are proved as negations on witnesses (`C09_witness_*`) and replayed on the real library by checks/c09.py.
 -/
 import UtapModel.Lemmas.C09Lex
+import UtapModel.Lemmas.C09Pratt
+import UtapModel.Lemmas.C09Misc
 import UtapModel.Model.C09Ops
 import UtapModel.Model.C09Scope
 import UtapModel.Gen.C09Tables
@@ -37,30 +39,6 @@ theorem C09_maskNew_nonProperty (isType) : NonProperty (genCfg maskNew isType) :
   decide
 
 /-! ## 1. trivia -/
-
-theorem tokensOf_congr (cfg : Cfg) : ∀ (items items' : List Item) (n : Nat),
-    items.map (fun i => (i.w, i.r)) = items'.map (fun i => (i.w, i.r)) → tokensOf cfg n items = tokensOf cfg n items' := by
-  intro items
-  induction items with
-  | nil => intro items' n h; cases items' with
-    | nil => rfl
-    | cons a b => simp at h
-  | cons it rest ih =>
-    intro items' n h
-    cases items' with
-    | nil => simp at h
-    | cons it' rest' =>
-      simp only [List.map_cons, List.cons.injEq, Prod.mk.injEq] at h
-      obtain ⟨⟨hw, hr⟩, ht⟩ := h
-      simp only [tokensOf, hw, hr]
-      rw [ih rest' _ ht]
-
-theorem lex_text (cfg : Cfg) (hwf : RulesWF cfg.rules = true) (hnp : NonProperty cfg) (sep0 : List Triv) (items : List Item)
-    (h0 : sepOK sep0 (renderItems items) = true) (h : Renderable cfg items = true) :
-    lex cfg (sepText sep0 ++ renderItems items) = tokensOf cfg 0 items := by
-  unfold lex
-  rw [lexGo_sep cfg hwf hnp sep0 _ _ 0 h0 (by omega)]
-  exact lex_render cfg hwf hnp items _ 0 h (by simp; omega)
 
 /-- **Trivia.**  Two texts made of the same lexemes (same texts, same rules), separated by ANY well-formed trivia
     (blank runs, newline runs, `//` comments, `/* */` comments, backslash-newline continuations; possibly none where
@@ -110,5 +88,214 @@ theorem C09_witness_expect :
     lex cfg [47, 42, 110, 111, 116, 101, 42, 47, 32, 121] = [.id [121]] ∧
     lex cfg [47, 42, 69, 88, 80, 69, 67, 84, 58, 107, 42, 47, 32, 121] = [.expect [107, 42, 47], .commentNotClosed] := by
   decide +kernel
+
+/-! ## 2. renaming -/
+
+/-- **Renaming, lexer half.**  Replace every user-chosen name `w` (a lexeme of the identifier rule that is no keyword
+    under the current syntax) by `ρ w`, and let the symbol table answer `is_type` for `ρ w` as it answered for `w`.
+    If the renamed text is still `Renderable` (each `ρ w` is matched by the identifier rule — see `C09_rename_lexeme`
+    for when that holds — and the adjacency conditions still hold), no `ρ w` is a keyword and all names are shorter
+    than MAXLEN, then the token stream of the renamed text is the renamed token stream. -/
+theorem C09_rename_lex (cfg : Cfg) (hwf : RulesWF cfg.rules = true) (hnp : NonProperty cfg)
+    (isType' : Nat → List Ch → Bool) (ρ : List Ch → List Ch) (sep0 : List Triv) (items : List Item)
+    (htype : ∀ n w, isType' n (ρ w) = cfg.isType n w)
+    (hρ : ∀ it ∈ items, isUserId cfg it = true →
+        kwTok cfg (ρ it.w) = none ∧ (ρ it.w).length < cfg.maxLen ∧ it.w.length < cfg.maxLen)
+    (h0 : sepOK sep0 (renderItems items) = true) (h : Renderable cfg items = true)
+    (h0' : sepOK sep0 (renderItems (renItems cfg ρ items)) = true)
+    (h' : Renderable { cfg with isType := isType' } (renItems cfg ρ items) = true) :
+    lex { cfg with isType := isType' } (sepText sep0 ++ renderItems (renItems cfg ρ items)) =
+      (lex cfg (sepText sep0 ++ renderItems items)).map (renTok ρ) := by
+  rw [lex_text cfg hwf hnp sep0 items h0 h,
+      lex_text { cfg with isType := isType' } hwf hnp sep0 _ h0' h',
+      tokensOf_rename cfg isType' ρ htype items 0 hρ]
+
+/-- **The range of the renaming.**  A text of the shape `{alpha}{idchr}*` that is not the text of a literal rule of
+    lexer.l, not a keyword under the current syntax and shorter than MAXLEN is matched by the identifier rule and
+    comes out as T_ID / T_TYPENAME with exactly that spelling (so it satisfies the lexeme part of `Renderable`). -/
+theorem C09_rename_lexeme (cfg : Cfg) (hiw : IdentWF cfg.rules = true) (x : List Ch) (hid : identShaped x = true)
+    (hlit : x ∉ litTexts cfg.rules) (hk : kwTok cfg x = none) (hlen : x.length < cfg.maxLen) (n : Nat) :
+    best cfg.rules x = some (.ident, x.length) ∧
+    action cfg n .ident x = ([if cfg.isType n x then .typename x else .id x], false) :=
+  ⟨best_ident cfg.rules hiw x hid hlit, action_ident cfg n x hk hlen⟩
+
+/-- the hypotheses of `C09_rename_lexeme` are satisfiable (the name `sup`, a keyword only under PROPERTY syntax) -/
+example : identShaped [115, 117, 112] = true ∧ [115, 117, 112] ∉ litTexts Gen.rules ∧
+    kwTok (genCfg maskNew (fun _ _ => false)) [115, 117, 112] = none := by decide +kernel
+
+/-- **Exception set of the renaming theorem (computed).**  The identifier-shaped spellings that are literal rules of
+    lexer.l without being keywords — names a user may choose but that the identifier rule never sees: A U R W E. -/
+def exceptionNames : List (List Ch) :=
+  (litTexts Gen.rules).filter fun l => identShaped l && (kwFind Gen.keywordTable l).isNone
+
+theorem C09_exception_names : exceptionNames = [[65], [85], [82], [87], [69]] := by decide +kernel
+
+/-- every other name is covered: outside `exceptionNames`, a non-keyword identifier-shaped spelling is not a literal -/
+theorem C09_rename_full_outside_exceptions (x : List Ch) (hid : identShaped x = true)
+    (hk : kwFind Gen.keywordTable x = none) (hx : x ∉ exceptionNames) : x ∉ litTexts Gen.rules := by
+  intro hm
+  apply hx
+  simp only [exceptionNames, List.mem_filter, Bool.and_eq_true, Option.isNone_iff_eq_none]
+  exact ⟨hm, hid, hk⟩
+
+/-- **Negation on the witnesses** (`rename:typedef-named-A` …): with a symbol table in which every name is a type,
+    `B` is a T_TYPENAME but none of the names of the exception set is — renaming the typedef `B` to `A` changes the
+    token stream beyond the renaming. -/
+theorem C09_witness_typedef_named :
+    let cfg := genCfg maskNew (fun _ _ => true)
+    lex cfg [66] = [.typename [66]] ∧ ∀ x ∈ exceptionNames, lex cfg x ≠ [.typename x] := by
+  decide +kernel
+
+/-- what the grammar's `NonTypeId` makes of a token: the identifier spelling it stands for -/
+def identView : Tok → Option (List Ch)
+  | .id s => some s
+  | .lit t => (lookup Gen.nonTypeId t).join
+  | _ => none
+
+/-- **Soft keywords as non-type names are fine**: every spelling that `NonTypeId` re-admits (A U W R E sup inf bounds
+    simulation) lexes — in model syntax and in PROPERTY syntax — to a token that `NonTypeId` turns back into exactly
+    that spelling (`M` has no lexer rule: the token 'M' is never produced, the spelling is an ordinary T_ID). -/
+theorem C09_softid_roundtrip :
+    ∀ p ∈ Gen.nonTypeId, ∀ s, p.2 = some s →
+      (lex (genCfg maskNew (fun _ _ => false)) s).map identView = [some s] ∧
+      (lex (genCfg Gen.bitPROPERTY (fun _ _ => false)) s).map identView = [some s] := by
+  decide +kernel
+
+/-! ### renaming, scope half -/
+
+/-- **Renaming, scope half.**  For an injective renaming, a renamed name resolves in the renamed frame chain to the
+    same declaration (same frame, same index, same typedef flag) — hence `is_type` answers equivariantly, which is the
+    hypothesis `htype` of `C09_rename_lex`. -/
+theorem C09_scope_equivariant (ρ : List Ch → List Ch) (hinj : ∀ a b, ρ a = ρ b → a = b) (chain : List Frame) (x : List Ch) :
+    resolve (chain.map (renFrame ρ)) (ρ x) = resolve chain x ∧
+    isTypeIn (chain.map (renFrame ρ)) (ρ x) = isTypeIn chain x := by
+  have key : ∀ (chain : List Frame) (d : Nat), resolve.go (ρ x) (chain.map (renFrame ρ)) d = resolve.go x chain d := by
+    intro chain
+    induction chain with
+    | nil => intro d; rfl
+    | cons f rest ih =>
+      intro d
+      simp only [List.map_cons, resolve.go, Frame.find, find_go_ren ρ hinj x f 0 none]
+      cases Frame.find.go x f 0 none with
+      | none => exact ih (d + 1)
+      | some p => rfl
+  have h1 : resolve (chain.map (renFrame ρ)) (ρ x) = resolve chain x := key chain 0
+  exact ⟨h1, by simp only [isTypeIn, h1]⟩
+
+/-- injectivity is needed: a non-injective renaming can capture (`b` resolves to the inner declaration after a,b ↦ c) -/
+example : ∃ (ρ : List Ch → List Ch) (chain : List Frame) (x : List Ch),
+    resolve (chain.map (renFrame ρ)) (ρ x) ≠ resolve chain x :=
+  ⟨fun _ => [99], [[([97], false)], [([98], true)]], [98], by decide⟩
+
+/-! ## 3. keyword aliases -/
+
+/-- the parser learns exactly the same about `and`/`&&`, `or`/`||`, `not`/`!`: same precedence line, same
+    associativity, same production shape, same callback with the same kind -/
+theorem C09_alias_and : litInfo genTables Gen.T_KW_AND = litInfo genTables Gen.T_BOOL_AND := by decide +kernel
+theorem C09_alias_or : litInfo genTables Gen.T_KW_OR = litInfo genTables Gen.T_BOOL_OR := by decide +kernel
+theorem C09_alias_not : litInfo genTables Gen.T_KW_NOT = litInfo genTables Gen.T_EXCLAM := by decide +kernel
+
+/-- `:=` and `=` are the same token already in the lexer -/
+theorem C09_alias_assign :
+    lex (genCfg maskNew (fun _ _ => false)) [58, 61] = lex (genCfg maskNew (fun _ _ => false)) [61] ∧
+    lex (genCfg maskNew (fun _ _ => false)) [61] = [.lit Gen.T_ASSIGNMENT] := by decide +kernel
+
+/-- the keyword spellings and the symbolic spellings lex to the tokens named above -/
+theorem C09_alias_lex :
+    let cfg := genCfg maskNew (fun _ _ => false)
+    lex cfg [97, 110, 100] = [.lit Gen.T_KW_AND] ∧ lex cfg [38, 38] = [.lit Gen.T_BOOL_AND] ∧
+    lex cfg [111, 114] = [.lit Gen.T_KW_OR] ∧ lex cfg [124, 124] = [.lit Gen.T_BOOL_OR] ∧
+    lex cfg [110, 111, 116] = [.lit Gen.T_KW_NOT] ∧ lex cfg [33] = [.lit Gen.T_EXCLAM] := by decide +kernel
+
+/-- replace the alias tokens by their symbolic twins -/
+def aliasSubst : Tok → Tok
+  | .lit t => if t = Gen.T_KW_AND then .lit Gen.T_BOOL_AND else if t = Gen.T_KW_OR then .lit Gen.T_BOOL_OR
+              else if t = Gen.T_KW_NOT then .lit Gen.T_EXCLAM else .lit t
+  | t => t
+
+/-- **Aliases.**  The operator parser sees a token only through its `Info`; a substitution of tokens that preserves
+    `Info` therefore preserves the callback trace — for ANY token stream (complete expression or not). -/
+theorem C09_alias_trace_general (T : Tables) (f : Tok → Tok) (h : ∀ t, tokInfo T (f t) = tokInfo T t) (toks : List Tok) :
+    opsTraceT T (toks.map f) = opsTraceT T toks := by
+  simp only [opsTraceT, mapM_map_info T f h toks]
+
+theorem C09_alias_trace (toks : List Tok) : opsTraceT genTables (toks.map aliasSubst) = opsTraceT genTables toks := by
+  apply C09_alias_trace_general
+  intro t
+  cases t with
+  | lit t =>
+    simp only [aliasSubst]
+    split
+    · rename_i e; subst e; simp only [tokInfo, C09_alias_and]
+    · split
+      · rename_i e; subst e; simp only [tokInfo, C09_alias_or]
+      · split
+        · rename_i e; subst e; simp only [tokInfo, C09_alias_not]
+        · rfl
+  | _ => rfl
+
+/-- non-vacuity: `a and not b or c` and `a && !b || c` have the same, non-trivial, trace -/
+example :
+    let cfg := genCfg maskNew (fun _ _ => false)
+    -- "a and not b or c"
+    let t1 := lex cfg [97, 32, 97, 110, 100, 32, 110, 111, 116, 32, 98, 32, 111, 114, 32, 99]
+    -- "a && !b || c"
+    let t2 := lex cfg [97, 32, 38, 38, 32, 33, 98, 32, 124, 124, 32, 99]
+    t1.map aliasSubst = t2 ∧
+    opsTraceT genTables t1 = some ["expr_identifier a", "expr_identifier b", "expr_unary NOT", "expr_binary AND",
+                                   "expr_identifier c", "expr_binary OR"] := by decide +kernel
+
+/-! ## 4. redundant parentheses -/
+
+open Pratt in
+/-- **Parentheses.**  Let `t` be an expression tree that is well-formed for a precedence table (i.e. it is the tree the
+    table assigns to its own token string), and `t'` the same tree with ANY number of additional parenthesis nodes
+    around ANY sub-expressions.  Then the precedence-climbing parser yields the same callback trace `val t` for both
+    token strings.  (Scope: atoms, binary operators of a `%left/%right` table, parentheses.  Prefix / postfix operators,
+    `?:`, calls, indexing are covered for parentheses only by the metamorphic runs on the real library.) -/
+theorem C09_paren (T : Tbl) (hT : T.Consistent) (t t' : PExpr) (hw : WF T 0 t) (hx : ParenExt t t') :
+    ∃ f, ∀ g, f ≤ g → Pratt.parseE T g 0 (toks t') = some (val t, []) ∧ Pratt.parseE T g 0 (toks t) = some (val t, []) := by
+  obtain ⟨f1, h1⟩ := roundtrip T hT t hw
+  obtain ⟨f2, h2⟩ := roundtrip T hT t' (parenExt_wf T hx 0 hw)
+  refine ⟨max f1 f2, fun g hg => ⟨?_, h1 g (by omega)⟩⟩
+  rw [← parenExt_val hx]
+  exact h2 g (by omega)
+
+/-- the table of the current parser.y as a `Pratt.Tbl`: level = index of the `%left/%right` line, associativity = that line's -/
+def genTbl : Pratt.Tbl :=
+  { bp := fun o => ((levelOf Gen.precLevels o).map (·.1)).getD 0,
+    rassoc := fun o =>
+      match Gen.precLevels[((levelOf Gen.precLevels o).map (·.1)).getD 0 - 1]? with
+      | some (.right, _) => true
+      | _ => false }
+
+theorem genTbl_consistent : genTbl.Consistent := by
+  intro o o' h
+  simp only [genTbl] at h ⊢
+  rw [h]
+
+/-- `genTbl.rassoc` is the associativity bison uses for every token of every precedence line -/
+theorem genTbl_faithful :
+    ∀ la ∈ Gen.precLevels, ∀ t ∈ la.2, levelOf Gen.precLevels t = some (genTbl.bp t, la.1) ∧
+      genTbl.rassoc t = (la.1 == .right) := by
+  decide +kernel
+
+/-- the production `'(' Expression ')'` fires no callback (the translator refuses any action there) -/
+theorem C09_paren_production_silent : Gen.parenCallbacks = [] := rfl
+
+theorem C09_paren_utap (t t' : Pratt.PExpr) (hw : Pratt.WF genTbl 0 t) (hx : Pratt.ParenExt t t') :
+    ∃ f, ∀ g, f ≤ g → Pratt.parseE genTbl g 0 (Pratt.toks t') = some (Pratt.val t, []) ∧
+      Pratt.parseE genTbl g 0 (Pratt.toks t) = some (Pratt.val t, []) :=
+  C09_paren genTbl genTbl_consistent t t' hw hx
+
+open Pratt in
+/-- the hypotheses are satisfiable by a non-trivial value: `a + b * c` and `((a) + (b * (c)))` -/
+example :
+    let t : PExpr := .bin Gen.T_PLUS (.atom 1) (.bin Gen.T_MULT (.atom 2) (.atom 3))
+    let t' : PExpr := .paren (.bin Gen.T_PLUS (.paren (.atom 1)) (.paren (.bin Gen.T_MULT (.atom 2) (.paren (.atom 3)))))
+    WF genTbl 0 t ∧ ParenExt t t' ∧ val t = [.at 1, .at 2, .at 3, .bi Gen.T_MULT, .bi Gen.T_PLUS] := by
+  refine ⟨?_, ?_, rfl⟩
+  · simp only [WF]; decide +kernel
+  · exact .wrap (.bin _ (.wrap (.atom 1)) (.wrap (.bin _ (.atom 2) (.wrap (.atom 3)))))
 
 end UtapModel.C09.Props
